@@ -393,7 +393,9 @@ fn run_case(case: &Case, ctx: &Ctx) -> Result<Stats, Outcome> {
     }
     let _ = &twin_points;
     let to_out = |b: Bad| {
-        if in_presave_window {
+        // a panic, an entity that does not load, a start-up that fails: never excused by where the cut fell
+        let hard = matches!(b.0.as_str(), "crash" | "c08-panic" | "c08-entity-does-not-load" | "c08-restart-fails");
+        if in_presave_window && !hard {
             Outcome::Violation { clause: "c08-presave-window".into(), key: format!("{}--{}", b.0, if case.crash { "crash" } else { "failed-write" }), msg: b.2 }
         } else if !case.crash && site_class.ends_with("@task-queue") {
             // the one failing write was the queueing of a task
